@@ -197,101 +197,7 @@ def run(ctx):
     if lits != want:
         r.violate("T4:literals", f"names compared in foreign content are {sorted(lits)}, specification: {sorted(want)}", "src/parser/tree_builder_simulator/mod.rs")
 
-    # ------------------------------------------------------------------ R03.3
-    r = ctx.rule("R03.3", "ambiguity guard: complete decision table of AmbiguityGuard::track_start_tag/track_end_tag over (state x tag) equals the reference (select / template-in-select / frameset), and the strict flag only gates the guard", "E-AST (finite-domain abstract interpretation)", floor=100)
-    ts = idx.one("track_start_tag", owner="AmbiguityGuard")
-    te = idx.one("track_end_tag", owner="AmbiguityGuard")
-    states = ["State::Default", "State::InSelect", ("State::InTemplateInSelect", 1), ("State::InTemplateInSelect", 2), "State::InOrAfterFrameset"]
-    switching = set(T.TEXT_TYPE_BY_TAG)
-
-    def ref_start(state, tag):
-        t = lc(tag) if tag not in (OTHER, EMPTY) else None
-        err = False
-        nxt = state
-        if state == "State::Default":
-            if t == "select":
-                nxt = "State::InSelect"
-            elif t == "frameset":
-                nxt = "State::InOrAfterFrameset"
-        elif state == "State::InSelect":
-            if t in T.IN_SELECT_LEAVE_START:
-                nxt = "State::Default"
-            elif t == "template":
-                nxt = ("State::InTemplateInSelect", 1)
-            elif t in switching and t not in T.IN_SELECT_PROCESSED:
-                err = True
-        elif isinstance(state, tuple):
-            if t == "template":
-                nxt = ("State::InTemplateInSelect", state[1] + 1)
-            elif t in switching:
-                err = True
-        elif state == "State::InOrAfterFrameset":
-            if t in switching and t not in T.FRAMESET_PROCESSED:
-                err = True
-        return err, nxt
-
-    def ref_end(state, tag):
-        t = lc(tag) if tag not in (OTHER, EMPTY) else None
-        if state == "State::InSelect" and t == "select":
-            return "State::Default"
-        if isinstance(state, tuple) and t == "template":
-            return "State::InSelect" if state[1] == 1 else ("State::InTemplateInSelect", state[1] - 1)
-        return state
-
-    def norm_state(v):
-        if isinstance(v, tuple):
-            return (v[0], v[1])
-        return v
-    for s in states:
-        for t in domain:
-            it.effects = []
-            v = it.call_fn(ts, [t], self_env={"self.state": s})
-            err = isinstance(v, tuple) and v[0] == "Err"
-            sets = [x for x in it.effects if x[0] == "set" and x[1] == "self.state"]
-            nxt = norm_state(sets[-1][2]) if sets else s
-            key = "start|%s|%s" % (s if isinstance(s, str) else "%s(%d)" % s, t)
-            r.inst(key, nontrivial=(t not in (OTHER, EMPTY)))
-            we, wn = ref_start(s, t)
-            if err != we or (not err and nxt != wn):
-                r.violate(key, f"AmbiguityGuard::track_start_tag in {s} on <{lc(t)}>: {'refuses' if err else 'goes to %s' % (nxt,)}; reference: {'refuse' if we else 'go to %s' % (wn,)}", "src/parser/tree_builder_simulator/ambiguity_guard.rs")
-            it.effects = []
-            it.call_fn(te, [t], self_env={"self.state": s})
-            sets = [x for x in it.effects if x[0] == "set" and x[1] == "self.state"]
-            nxt = norm_state(sets[-1][2]) if sets else s
-            key = "end|%s|%s" % (s if isinstance(s, str) else "%s(%d)" % s, t)
-            r.inst(key, nontrivial=(t not in (OTHER, EMPTY)))
-            if nxt != ref_end(s, t):
-                r.violate(key, f"AmbiguityGuard::track_end_tag in {s} on </{lc(t)}>: goes to {nxt}; reference: {ref_end(s, t)} (the guard would forget that it is still inside <select>/<template>)", "src/parser/tree_builder_simulator/ambiguity_guard.rs")
-    # positive control: a wrong reference must be noticed
-    r.control(ref_end(("State::InTemplateInSelect", 1), "Template") != "State::Default", "reference distinguishes InSelect from Default after </template>")
-    # strict flag: read only as the guard of the two track calls
-    readers = sorted(set(f.key for f in mir.fns if not mir.is_test_fn(f) and "TreeBuilderSimulator.strict" in sm.fields_read(f)))
-    r.inst("strict|readers", sample={"readers": readers})
-    if readers != ["TreeBuilderSimulator::get_feedback_for_end_tag", "TreeBuilderSimulator::get_feedback_for_start_tag"]:
-        r.violate("strict|readers", f"TreeBuilderSimulator.strict is read in {readers}; a successful strict run must differ from the non-strict run in nothing but the guard", "src/parser/tree_builder_simulator/mod.rs")
-    for nm, tr in (("TreeBuilderSimulator::get_feedback_for_start_tag", "track_start_tag"), ("TreeBuilderSimulator::get_feedback_for_end_tag", "track_end_tag")):
-        f = mir.fn(nm)
-        tc = [bi for bi, t in f.calls(r"AmbiguityGuard::" + tr + "$")]
-        r.inst(nm + "|guarded")
-        if len(tc) != 1:
-            r.violate(nm + "|guarded", f"{nm} does not call AmbiguityGuard::{tr} exactly once", f.loc())
-            continue
-        # the call is control-dependent on strict == true and everything else is not
-        sw = [bi for bi, b in enumerate(f.blocks) if b["term"]["k"] == "switch" and f.describe_operand(b["term"]["d"]).endswith(".strict")]
-        if len(sw) != 1:
-            r.violate(nm + "|guarded", f"{nm}: expected exactly one branch on self.strict", f.loc())
-            continue
-        false_t = [x[1] for x in f.blocks[sw[0]]["term"]["ts"] if x[0] == 0][0]
-        true_t = f.blocks[sw[0]]["term"]["else"]
-        if not f.dominates(true_t, tc[0]) or f.dominates(false_t, tc[0]):
-            r.violate(nm + "|guarded", f"{nm}: the ambiguity guard is not executed exactly when strict is set", f.loc())
-        others = [bi for bi, t in f.calls() if bi != tc[0] and not re.search(r"branch|from_residual", callee_key(t))]
-        if any(f.dominates(true_t, o) and not f.dominates(false_t, o) and o not in f.reachable_blocks(false_t) for o in others):
-            r.violate(nm + "|strict-only-work", f"{nm}: work other than the guard happens only in strict mode", f.loc())
-    ctor = sorted(set(f.key for f in mir.fns if not mir.is_test_fn(f) for b in f.blocks for st in b["stmts"] if st["k"] == "assign" and st["rv"]["k"] == "agg" and st["rv"]["name"].endswith("ParsingAmbiguityError")))
-    r.inst("error|constructors", sample={"constructors": ctor})
-    if ctor != ["parser::tree_builder_simulator::ambiguity_guard::assert_not_ambiguous_text_type_switch"]:
-        r.violate("error|constructors", f"ParsingAmbiguityError is constructed in {ctor}; strict mode must fail only through the ambiguity guard", None)
+    rule_ambiguity_guard(ctx, idx, mir, T)
 
     # ------------------------------------------------------------------ R03.4
     r = ctx.rule("R03.4", "'appropriate end tag': both implementations compare the end tag's hash with last_start_tag_name_hash, which is recorded only for start tags", "E-MIR", floor=4)
@@ -497,3 +403,105 @@ def rule_foreign_feedback_table(ctx, idx, T, rid="R03.8"):
             want2 = "leave" if name in ips else ("request" if (t == EMPTY and ns == "Namespace::MathML") else "none")
             if got != want2:
                 r.violate(key + "|integration-point-exit", f"inside an HTML integration point of {ns.split('::')[-1]} the end tag </{name or t}> gives `{got}`; reference `{want2}`", "src/parser/tree_builder_simulator/mod.rs")
+
+
+def rule_ambiguity_guard(ctx, idx, mir, T, rid="R03.3"):
+    it = Interp(idx)
+    tags = tag_variants(idx)
+    domain = [OTHER, EMPTY] + tags
+    # ------------------------------------------------------------------ R03.3
+    r = ctx.rule(rid, "ambiguity guard: complete decision table of AmbiguityGuard::track_start_tag/track_end_tag over (state x tag) equals the reference (select / template-in-select / frameset), and the strict flag only gates the guard", "E-AST (finite-domain abstract interpretation)", floor=100)
+    ts = idx.one("track_start_tag", owner="AmbiguityGuard")
+    te = idx.one("track_end_tag", owner="AmbiguityGuard")
+    states = ["State::Default", "State::InSelect", ("State::InTemplateInSelect", 1), ("State::InTemplateInSelect", 2), "State::InOrAfterFrameset"]
+    switching = set(T.TEXT_TYPE_BY_TAG)
+
+    def ref_start(state, tag):
+        t = lc(tag) if tag not in (OTHER, EMPTY) else None
+        err = False
+        nxt = state
+        if state == "State::Default":
+            if t == "select":
+                nxt = "State::InSelect"
+            elif t == "frameset":
+                nxt = "State::InOrAfterFrameset"
+        elif state == "State::InSelect":
+            if t in T.IN_SELECT_LEAVE_START:
+                nxt = "State::Default"
+            elif t == "template":
+                nxt = ("State::InTemplateInSelect", 1)
+            elif t in switching and t not in T.IN_SELECT_PROCESSED:
+                err = True
+        elif isinstance(state, tuple):
+            if t == "template":
+                nxt = ("State::InTemplateInSelect", state[1] + 1)
+            elif t in switching:
+                err = True
+        elif state == "State::InOrAfterFrameset":
+            if t in switching and t not in T.FRAMESET_PROCESSED:
+                err = True
+        return err, nxt
+
+    def ref_end(state, tag):
+        t = lc(tag) if tag not in (OTHER, EMPTY) else None
+        if state == "State::InSelect" and t == "select":
+            return "State::Default"
+        if isinstance(state, tuple) and t == "template":
+            return "State::InSelect" if state[1] == 1 else ("State::InTemplateInSelect", state[1] - 1)
+        return state
+
+    def norm_state(v):
+        if isinstance(v, tuple):
+            return (v[0], v[1])
+        return v
+    for s in states:
+        for t in domain:
+            it.effects = []
+            v = it.call_fn(ts, [t], self_env={"self.state": s})
+            err = isinstance(v, tuple) and v[0] == "Err"
+            sets = [x for x in it.effects if x[0] == "set" and x[1] == "self.state"]
+            nxt = norm_state(sets[-1][2]) if sets else s
+            key = "start|%s|%s" % (s if isinstance(s, str) else "%s(%d)" % s, t)
+            r.inst(key, nontrivial=(t not in (OTHER, EMPTY)))
+            we, wn = ref_start(s, t)
+            if err != we or (not err and nxt != wn):
+                r.violate(key, f"AmbiguityGuard::track_start_tag in {s} on <{lc(t)}>: {'refuses' if err else 'goes to %s' % (nxt,)}; reference: {'refuse' if we else 'go to %s' % (wn,)}", "src/parser/tree_builder_simulator/ambiguity_guard.rs")
+            it.effects = []
+            it.call_fn(te, [t], self_env={"self.state": s})
+            sets = [x for x in it.effects if x[0] == "set" and x[1] == "self.state"]
+            nxt = norm_state(sets[-1][2]) if sets else s
+            key = "end|%s|%s" % (s if isinstance(s, str) else "%s(%d)" % s, t)
+            r.inst(key, nontrivial=(t not in (OTHER, EMPTY)))
+            if nxt != ref_end(s, t):
+                r.violate(key, f"AmbiguityGuard::track_end_tag in {s} on </{lc(t)}>: goes to {nxt}; reference: {ref_end(s, t)} (the guard would forget that it is still inside <select>/<template>)", "src/parser/tree_builder_simulator/ambiguity_guard.rs")
+    # positive control: a wrong reference must be noticed
+    r.control(ref_end(("State::InTemplateInSelect", 1), "Template") != "State::Default", "reference distinguishes InSelect from Default after </template>")
+    # strict flag: read only as the guard of the two track calls
+    readers = sorted(set(f.key for f in mir.fns if not mir.is_test_fn(f) and "TreeBuilderSimulator.strict" in sm.fields_read(f)))
+    r.inst("strict|readers", sample={"readers": readers})
+    if readers != ["TreeBuilderSimulator::get_feedback_for_end_tag", "TreeBuilderSimulator::get_feedback_for_start_tag"]:
+        r.violate("strict|readers", f"TreeBuilderSimulator.strict is read in {readers}; a successful strict run must differ from the non-strict run in nothing but the guard", "src/parser/tree_builder_simulator/mod.rs")
+    for nm, tr in (("TreeBuilderSimulator::get_feedback_for_start_tag", "track_start_tag"), ("TreeBuilderSimulator::get_feedback_for_end_tag", "track_end_tag")):
+        f = mir.fn(nm)
+        tc = [bi for bi, t in f.calls(r"AmbiguityGuard::" + tr + "$")]
+        r.inst(nm + "|guarded")
+        if len(tc) != 1:
+            r.violate(nm + "|guarded", f"{nm} does not call AmbiguityGuard::{tr} exactly once", f.loc())
+            continue
+        # the call is control-dependent on strict == true and everything else is not
+        sw = [bi for bi, b in enumerate(f.blocks) if b["term"]["k"] == "switch" and f.describe_operand(b["term"]["d"]).endswith(".strict")]
+        if len(sw) != 1:
+            r.violate(nm + "|guarded", f"{nm}: expected exactly one branch on self.strict", f.loc())
+            continue
+        false_t = [x[1] for x in f.blocks[sw[0]]["term"]["ts"] if x[0] == 0][0]
+        true_t = f.blocks[sw[0]]["term"]["else"]
+        if not f.dominates(true_t, tc[0]) or f.dominates(false_t, tc[0]):
+            r.violate(nm + "|guarded", f"{nm}: the ambiguity guard is not executed exactly when strict is set", f.loc())
+        others = [bi for bi, t in f.calls() if bi != tc[0] and not re.search(r"branch|from_residual", callee_key(t))]
+        if any(f.dominates(true_t, o) and not f.dominates(false_t, o) and o not in f.reachable_blocks(false_t) for o in others):
+            r.violate(nm + "|strict-only-work", f"{nm}: work other than the guard happens only in strict mode", f.loc())
+    ctor = sorted(set(f.key for f in mir.fns if not mir.is_test_fn(f) for b in f.blocks for st in b["stmts"] if st["k"] == "assign" and st["rv"]["k"] == "agg" and st["rv"]["name"].endswith("ParsingAmbiguityError")))
+    r.inst("error|constructors", sample={"constructors": ctor})
+    if ctor != ["parser::tree_builder_simulator::ambiguity_guard::assert_not_ambiguous_text_type_switch"]:
+        r.violate("error|constructors", f"ParsingAmbiguityError is constructed in {ctor}; strict mode must fail only through the ambiguity guard", None)
+
